@@ -217,6 +217,40 @@ def run(facts, res):
                               "elements inserted concurrently on another branch disappear from that view" % b.path, b.loc(t.line))
     res.floor("M3", "array views built from the fold", n3b, 1)
 
+    # ------------------------------------------------------------------ M5 every flattened array gets a descriptor
+    # An array under a flattened key is always stored through its own array descriptor, whatever it contains: the descriptor is the
+    # unit that merges. If an array that happens to be empty (or short, or of scalars) is left in place inside the owner object, a
+    # replica that empties the array rewrites the *owner* while a concurrent insert rewrites the *descriptor*; after the exchange the
+    # owner's leaf says `[]` and the inserted live element is on no replica's view.
+    from ..conds import unaccepted as _un5
+    fl = facts.body("utils::flatten")
+    n5 = 0
+    if fl is not None:
+        order_key = facts.const_str("constants::ARRAY_DESCRIPTOR_ORDER_FIELD")
+        for cb in _mo(facts, fl):
+            for bi, t in cb.calls():
+                if t.callee is None or t.callee.name != "insert" or "serde_json::Map" not in t.callee.path or len(t.args) < 3:
+                    continue
+                k_ = du_of(cb).operand_term(t.args[1], 10)
+                if order_key not in [x[2] for x in walk(k_) if x[0] == "const" and x[1] == "str"]:
+                    continue
+                n5 += 1
+
+                def okl(l):
+                    if l.kind == "variant":
+                        return True                      # "the flattened value is an Array", loop / Option plumbing
+                    if l.kind == "call":
+                        return callee_name(l.term) in ("is_flattened_field", "ends_with", "starts_with", "ne", "eq", "is_array", "is_object", "contains_key")
+                    return False
+                extra = [repr(l) for l in _un5(lits_of(cb, bi, facts), okl)]
+                res.instance("M5", "%s: an array under a flattened key becomes a descriptor under no condition on its contents: %s" % (cb.path, not extra), cb.loc(t.line))
+                if extra:
+                    res.violation("M5", "flatten|descriptor-creation-conditional",
+                                  "flatten creates the array descriptor only under the additional condition %s: an array for which it does not hold is "
+                                  "stored inside its owner and no longer merges element-wise with concurrent edits" % extra[:2], cb.loc(t.line))
+    res.rule("M5", "every array under a flattened key is stored through an array descriptor (no condition on the array's contents)")
+    res.floor("M5", "descriptor creation sites in flatten", n5, 1)
+
     # ------------------------------------------------------------------ M4
     rd = facts.body("melda::Melda::read")
     n4 = 0
